@@ -150,7 +150,18 @@ func historyCase(r *rand.Rand, hot int) Case {
 				rm[f.Name] = "required"
 			}
 		}
-		if len(rm) >= 2 {
+		// the first field holds a value (rules other than required are not evaluated on empty ones), the others are empty
+		var f0 reflect.Value
+		for i := 0; i < t.NumField(); i++ {
+			if t.Field(i).PkgPath == "" {
+				f0 = pv.Elem().Field(i)
+				break
+			}
+		}
+		for k := 0; k < 6 && f0.IsValid() && f0.IsZero(); k++ {
+			g.fill(f0, 0)
+		}
+		if len(rm) >= 2 && f0.IsValid() && !f0.IsZero() {
 			call = structCall{src: pv.Interface(), outer: rm, local: map[string]string{"lslow": slowMarker}}
 			tags = []string{"top:slow-call"}
 		}
